@@ -200,3 +200,37 @@ def block_transposes(ck, T, axioms):
             S.oblige('post', tt.normal and tt.value is o, tag='transpose-of-transpose-is-the-operator')
     T.externals['jax.ShapeDtypeStruct'] = lambda interp, shape, dtype, **k: ('sds', shape, dtype)
     ck.explore('furax.toast.obs_matrix.ToastObservationMatrixOperator.transpose', toast, T, axioms=axioms)
+    transpose_overrides(ck)
+
+
+def transpose_overrides(ck):
+    """closed world: every class that defines its own `transpose` (or a TransposeOperator subclass with its own mv) is
+    under a contract somewhere; a class that is not in the table (a NEW hand-written transpose) leaves the property
+    undecided for that class, and the native adjoint oracle is run on it"""
+    from props import C08
+    P = ck.P
+    C08.patch_class_table(P)            # decorators' rewiring (symmetric / orthogonal: transpose is self / inverse)
+    base = P.cls(f'{CORE}.AbstractLinearOperator')
+    lazy = P.cls(f'{CORE}.TransposeOperator')
+    where = {'AdditionOperator': 'C03', 'CompositionOperator': 'C03', 'TransposeOperator': 'C03', 'BlockRowOperator': 'C03/C10',
+             'BlockDiagonalOperator': 'C03/C10', 'BlockColumnOperator': 'C03/C10', 'ToastObservationMatrixOperator': 'C03',
+             'ToastObservationMatrixTransposeOperator': 'C03', 'AbstractRavelOrReshapeOperator': 'C13',
+             'ReshapeTransposeOperator': 'C13', 'MoveAxisOperator': 'C13', 'DenseBlockDiagonalOperator': 'C14',
+             'QURotationOperator': 'C15', 'QURotationTransposeOperator': 'C15',
+             # `symmetric` decorator: transpose returns self; that the operator IS symmetric is C08's obligation
+             'DiagonalOperator': 'C08 (symmetric)', 'HWPOperator': 'C08 (symmetric)', 'HomothetyOperator': 'C08 (symmetric)',
+             'IdentityOperator': 'C08 (symmetric)', 'SymmetricBandToeplitzOperator': 'C08/C09 (symmetric)'}
+    table = {}
+    for c in sorted(P.classes.values(), key=lambda c: c.name):
+        if base not in c.mro or c is base:
+            continue
+        own = 'transpose' in c.methods or 'transpose' in getattr(c, 'patched', {})
+        lazy_mv = lazy in c.mro and 'mv' in c.methods
+        if not (own or lazy_mv):
+            continue
+        table[c.name] = where.get(c.name, 'NOT COVERED')
+        if c.name not in where:
+            ck._undecided(f'{c.module}.{c.name}.transpose', 'transpose-overrides',
+                          'hand-written transpose without a contract (new override?)',
+                          oracle={'name': 'adjoint_family', 'cls': c.name})
+    ck.samples.append({'transpose_overrides': table})
